@@ -24,7 +24,8 @@ from .core import Finding, sx
 
 THEOREMS = ["Cspuz.C03.C03_text_roundtrip", "Cspuz.C03.C03_wt_printable", "Cspuz.C03.C03_reply_sat",
             "Cspuz.C03.C03_reply_facts", "Cspuz.C03.C03_five_backends", "Cspuz.C03.C03_backend_correct",
-            "Cspuz.C03.C03_native_deduction"]
+            "Cspuz.C03.C03_native_deduction", "Cspuz.C03.C03_plain_sugar", "Cspuz.C03.C03_java_loop",
+            "Cspuz.C03.C03_solver_exists"]
 
 NAMES = ["sugar", "sugar_extended", "csugar", "enigma_csp", "cspuz_core"]
 FAKE_MODULES = {"csugar": "pycsugar", "enigma_csp": "enigma_csp", "cspuz_core": "cspuz_core"}
@@ -727,6 +728,17 @@ def correspond(ctx):
         "Solver.solve end-to-end against a Python mock solver (refinement loop for plain sugar: every (description, reply) "
         "exchanged is replayed through the Lean model); non-trivial = a description was captured and a sat/facts reply "
         "parsed; distinct by (kind, backend, description, reply)")
+    ctx.extra["assumptions"] = [
+        "No Sugar / csugar / enigma_csp / cspuz_core binary or module exists in the sandbox: the external solver is a "
+        "parameter with the explicit hypothesis SolverCorrect (shown satisfiable: C03_solver_exists); what is verified is "
+        "the text contract on both sides",
+        "Sugar's input syntax (Spec/SugarSyntax.lean: S-expressions, int/bool definitions, the operator names and their "
+        "meaning, `-` unary = negation) and the two reply formats (Model/Sugar.lean formatters, Model/SugarJava.lean) are "
+        "modelled from Sugar's documentation and sugar_extension/CspuzSugarInterface.java, which cannot be compiled or run "
+        "here; pycsugar / enigma_csp / cspuz_core are assumed to print the same two formats",
+        "variable identifiers are natural numbers; CPython's 4300-digit limit of int<->str and non-ASCII decimal digits "
+        "accepted by int() are outside the model",
+    ]
     rng = ctx.rng
     drv = core.Driver()
     lines, checks = [], []
@@ -892,12 +904,24 @@ def correspond(ctx):
                         ask(f"(sugar-find {decls} {pairs} " + " ".join(cs_txt) + ")", chk3)
                     else:
                         ask(f"(sugar-solve {name} {decls} {sx(skeys)} {pairs} " + " ".join(cs_txt) + ")", chk3)
+                    for d, r in log[:3]:
+                        def chk4(out, d=d, r=r):
+                            j = decode(core.parse_sx(out))
+                            same = (j == r) if "#" in d else (j.split("\n")[0] == r.split("\n")[0])
+                            if not same:
+                                ctx.disagree("java-model", description=d, java_model=j, python_mock=r)
+                        ask(f"(java-run {codes(d)})", chk4)
+                        ctx.count("java-run:" + ("deduction" if "#" in d else "finder"))
                     ctx.count(f"e2e:{mode}:{name}:exchanges={min(len(log), 4)}")
                     if real[0] == "T":
                         ctx.case({"kind": "e2e-" + mode, "backend": name, "decls": decls, "constraints": cs_txt[:3],
                                   "keys": sx(skeys), "result": sx(real)}, ("e2e", mode, name, decls, " ".join(cs_txt), sx(skeys)))
     # the dispatch table as the compiled model sees it
     ask("(sugar-table)", lambda out: _check_table(ctx, out))
+    ask("(sugar-format-unsat)", lambda out: decode(core.parse_sx(out)) == "s UNSATISFIABLE\n" or ctx.disagree(
+        "format-unsat", model=decode(core.parse_sx(out))))
+    ask("(sugar-format-unsat-facts)", lambda out: decode(core.parse_sx(out)) == "unsat\n" or ctx.disagree(
+        "format-unsat-facts", model=decode(core.parse_sx(out))))
     outs = drv.run(lines)
     for fn, out in zip(checks, outs):
         fn(out)
